@@ -5,8 +5,41 @@ from .common import Canon, draw_env, draw_world, dumps
 from .replies import (b64, draw_events, draw_payload, exec_envelope, ids_of, inst_envelope, pb_field, rand_bytes,
                       varint, wellformed_data)
 
-CELLS = ["none", "wellformed", "empty-envelope", "wrong-tag", "wrong-wire-type", "truncated", "varint-too-long",
+CELLS = ["none", "wellformed", "wellformed-long", "empty-envelope", "wrong-tag", "wrong-wire-type", "truncated", "varint-too-long",
          "json-garbage", "json-wrong-type", "json-empty-inner"]
+
+
+def long_value(ty, size):
+    """A value of the data type whose JSON text has at least `size` bytes (None: the type has no long values)."""
+    r = ty.rust
+    if r == "String":
+        return "s" * size
+    if r == "Option<String>":
+        return "o" * size
+    if r == "svmon::Pt":
+        return {"x": 7, "label": "l" * size}
+    if r == "Vec<u32>":
+        return [i % 1000 for i in range(size)]
+    if r == "Coin":
+        return {"denom": "d" * size, "amount": "12"}
+    return None
+
+
+def draw_adversarial_msg_responses(rng, prog, canon, m):
+    """`msg_responses` is context for the handler, never a source of its data: the first entry may even hold
+    bytes that would be well-formed data for the method's mode."""
+    c = rng.random()
+    if c < 0.4:
+        return []
+    if c < 0.7 and m["data"] is not None:
+        d, _ = wellformed_data(rng, prog, canon, m, allow_none=False)
+        first = d if d is not None else b64(b"x")
+    else:
+        first = b64(rand_bytes(rng, rng.choice([1, 5, 40])))
+    out = [{"type_url": "/cosmwasm.wasm.v1.MsgExecuteContractResponse", "value": first}]
+    for i in range(rng.choice([0, 0, 1])):
+        out.append({"type_url": "/x.y.Z" + str(i), "value": b64(rand_bytes(rng))})
+    return out
 
 
 def make_cell(rng, prog, canon, m, cell):
@@ -23,6 +56,25 @@ def make_cell(rng, prog, canon, m, cell):
         if d is None:
             d = b64(b"x")
         return d, ("value", echo)
+    if cell == "wellformed-long":
+        # fields of 128 bytes and more: their protobuf length prefix takes several bytes
+        size = rng.choice([128, 129, 200, 300, 16383, 16384, 70000])
+        if mode is None:
+            return None, ("skip",)
+        if mode in ("raw", "raw_opt"):
+            raw = bytes(rng.randrange(256) for _ in range(size))
+            return b64(raw), ("value", dumps(b64(raw)))
+        if mode in ("typed", "opt"):
+            v = long_value(prog["types"][m["data_ti"]], size)
+            if v is None:
+                return None, ("skip",)
+            c = canon.one(m["data_ti"], dumps(v))["ok"]
+            assert len(c.encode()) >= 128
+            return b64(exec_envelope(c.encode())), ("value", c)
+        which = rng.choice(["addr", "data", "both"])
+        addr = "contract" + ("a" * size if which in ("addr", "both") else str(rng.randrange(10**6)))
+        inner = bytes(rng.randrange(256) for _ in range(size)) if which in ("data", "both") else b"\x01\x02"
+        return b64(inst_envelope(addr, inner)), ("value", dumps([addr, b64(inner)]))
     if cell == "empty-envelope":
         raw = b""
     elif cell == "wrong-tag":
@@ -85,7 +137,7 @@ def check_prog(ctx, r, prog, n, table_cells):
                 from .replies import payload_for_name
                 payload, pargs, _ = payload_for_name(r, rng, prog, canon, name, tb["names"][name], m["payload_names"])
                 rep = {"id": ids[name], "payload": payload, "gas_used": rng.randrange(10**6),
-                       "result": {"ok": {"events": draw_events(rng), "data": data, "msg_responses": []}}}
+                       "result": {"ok": {"events": draw_events(rng), "data": data, "msg_responses": draw_adversarial_msg_responses(rng, prog, canon, m)}}}
                 path = paths[it % 3]
                 cmds.append({"prog": pn, "op": path, "reply": rep, "world": draw_world(rng), "env": draw_env(rng), "plan": None})
                 meta.append((m, cell, exp, pargs, rep, path))
